@@ -41,6 +41,7 @@ type OblResult struct {
 	Result     string  `json:"result"` // unsat | sat | unknown | timeout | error
 	SolverS    float64 `json:"solver_s"`
 	Folded     bool    `json:"folded,omitempty"` // decided by constant folding, no solver query
+	Solver     string  `json:"solver,omitempty"`
 	Replay     string  `json:"replay,omitempty"`
 	Reproduced string  `json:"reproduced,omitempty"` // yes | no | assume-failed | n/a
 	Native     string  `json:"native,omitempty"`
@@ -189,8 +190,9 @@ func runOne(spec RunSpec, verbose bool) *RunResult {
 					r.Result, r.Folded = "unsat", true
 				default:
 					smt, vars := smtScript(o.Cond, true)
-					rs, m, d := solveScript(smt, vars, "z3-new", spec.Timeout)
+					rs, m, d, who := solvePortfolio(smt, vars, spec.Timeout)
 					r.Result, r.SolverS = rs, d.Seconds()
+					r.Solver = who
 					models[i] = m
 					mu.Lock()
 					cpu += d
